@@ -449,11 +449,32 @@ TRIAGED_NAV = {
         'an expr_stmt is always followed by a newline, a semicolon or the endmarker',
     ('jedi.api.refactoring.extract', 'extract_function', 'nodes[-1].get_next_leaf()'):
         'the extracted nodes lie inside a function body, which is followed at least by the endmarker',
+    # outside jedi/api
+    ('jedi.inference.dynamic_params', '_get_potential_nodes', 'name.get_next_leaf()'):
+        'a name leaf is never the last leaf of a module (the endmarker follows)',
+    ('jedi.inference.finder', '_get_call_string', 'leaf.get_next_leaf()'):
+        'the loop stays inside the node (start_pos < end of the node); a leaf inside an expression is followed at least by the endmarker',
+    ('jedi.inference.imports', '_prepare_infer_import', "tree_name.search_ancestor('import_name', 'import_from')"):
+        'only called for names whose definition is an import_name/import_from (callers dispatch on that type)',
+    ('jedi.inference.names', 'StubNameMixin.py__doc__', 'self.tree_name.get_definition()'):
+        'stub names come from stub filters, which only hold defining names',
+    ('jedi.inference.star_args', '_iter_nodes_for_param', "param_name.tree_name.search_ancestor('funcdef', 'lambdef')"):
+        'a parameter name always sits inside a funcdef or lambdef',
+    ('jedi.inference.syntax_tree', 'tree_name_to_values', 'tree_name.get_previous_sibling()'):
+        'branch for `except X as name`: the name is preceded by `as` and the exception expression',
+    ('jedi.inference.syntax_tree', 'tree_name_to_values', 'tree_name.get_previous_sibling().get_previous_sibling()'):
+        'branch for `except X as name`: the name is preceded by `as` and the exception expression',
+    ('jedi.inference.value.instance', 'SelfAttributeFilter._is_in_right_scope', 'n.tree_name.get_definition()'):
+        'guarded by n.api_type == \'param\': a parameter name is the defining name of its param node',
+    ('jedi.inference.value.instance', '_BaseTreeInstance.create_instance_context', "new.search_ancestor('funcdef', 'classdef')"):
+        'node lies inside the class: the climb reaches class_context.tree_node before it runs off the tree',
+    ('jedi.inference.value.klass', 'get_dataclass_param_names', 'name.tree_name.get_definition()'):
+        'the names come from the class body filter\'s values(), which are defining names',
 }
 
 
 def rule_g(repo, chk):
-    chk.clause('C01.g', 'in jedi/api/**, a value obtained from a parso navigator that can return None (derived from parso\'s own source) is '
+    chk.clause('C01.g', 'in the whole package, a value obtained from a parso navigator that can return None (derived from parso\'s own source) is '
                         'dereferenced only under a dominating None test (or the site is triaged with the reason None is impossible)')
     navs = G.nullable_navigators()
     nav_names = set(navs) - {'binary_search', 'default', 'annotation', 'get_doc_node', 'get_super_arglist', 'get_corresponding_test_node'}
@@ -467,8 +488,6 @@ def rule_g(repo, chk):
     chk.ob('C01.g', prefixes_nonnull, None, 'parso source: get_leaf_for_position(pos, include_prefixes=True) has no None return '
            '(every `return None` is under `not include_prefixes`)', key='nonnull-include_prefixes')
     for m in sorted(repo.modules.values(), key=lambda m: m.name):
-        if not (m.name == 'jedi.api' or m.name.startswith('jedi.api.')):
-            continue
         for q, f in sorted(m.defs.items()):
             if not isinstance(f, FUNC_TYPES):
                 continue
@@ -489,8 +508,10 @@ def rule_g(repo, chk):
                     continue
                 # immediate dereference of the result
                 if isinstance(p, (ast.Attribute, ast.Subscript)) and p.value is c or (isinstance(p, ast.Call) and p.func is c):
-                    chk.ob('C01.g', False, p, 'result of `%s` (may be None) is dereferenced at once: `%s`' % (short(c, 40), short(p, 60)),
-                           'no None test possible', key='%s:%s|%s' % dkey)
+                    eafp = any(handler_types(h) & {'AttributeError', 'Exception', 'BaseException', '*'}
+                               for t in enclosing_handlers(st, f) for h in t.handlers)
+                    chk.ob('C01.g', eafp, p, 'result of `%s` (may be None) is dereferenced at once: `%s`%s' % (short(c, 40), short(p, 60),
+                           ' inside try/except AttributeError' if eafp else ''), 'no None test possible', key='%s:%s|%s' % dkey)
                     continue
                 # bound to a local?
                 vars_ = []
@@ -558,7 +579,7 @@ def rule_g(repo, chk):
                     chk.ob('C01.g', False, u, '`%s` uses regex result `%s` (= %s, None when nothing matches) without a None test' % (short(u, 40), var, short(c, 40)),
                            'path: %s' % w, key='%s:%s|%s' % (m.name, q, norm(c)))
     chk.floor('C01.g', n_re, 4, '(regex match results in jedi/api)')
-    chk.floor('C01.g', n_results, 30, '(navigator results in jedi/api)')
+    chk.floor('C01.g', n_results, 60, '(navigator results in the package)')
     chk.notes['navigator_results'] = n_results
 
 
